@@ -23,13 +23,13 @@ PROPS["C19"] = dict(
     ],
     rule="read: buffer size N in {1,2,3,4,5,8,16,64} x source of generated length x cyclic chunk script "
          "(1 byte / full request / generated size) x sequence of get lengths 0..N+3 incl. nullptr requests; "
-         "write: N x sequence of append lengths 0..2N+3, flush, nullptr appends x injected sink failures (a failing writeData() call "
+         "write: N x sequence of append lengths 0..2N+3 (half of them through uint16_t*/uint32_t* pointers, the length always being a byte count), flush, nullptr appends x injected sink failures (a failing writeData() call "
          "consumes nothing and throws; the caller repeats the operation); exhaustive part: N<=3, all "
          "sequences up to length 5 (read: x 6 chunk scripts x 3 source slacks). Non-trivial = a get() that needs a "
          "refill while bytes are still buffered (compaction path), resp. an append() that forces a flush; distinct "
          "by hash of the serialised case.",
     require_classes=dict(all=["read.refill_with_buffered_data", "read.refused_too_long", "write.forced_flush",
-                              "write.pass_through", "read.refill_multi_chunk", "write.sink_failure_retried"]),
+                              "write.pass_through", "read.refill_multi_chunk", "write.sink_failure_retried", "write.typed_pointer", "write.typed_pointer_oversized_block_on_filled_buffer"]),
     assumptions=["the source never returns 0 bytes while requested data is outstanding (ReadBuffer has no EOF protocol)",
                  "total requested bytes never exceed the source length"],
 )
